@@ -8,6 +8,7 @@ spec fn h_hi(h: BuildHelper) -> int { h.num_blocks as int * h.block_len as int }
 spec fn h_lo(h: BuildHelper) -> int {
     (if h.num_blocks >= h.num_free_blocks { h.num_blocks - h.num_free_blocks } else { 0 }) * h.block_len as int
 }
+#[verifier::opaque]
 spec fn h_it(h: BuildHelper, i: int) -> ListItem { h.items@[i % h_cap(h)] }
 
 spec fn h_basic(h: BuildHelper) -> bool {
@@ -60,6 +61,21 @@ proof fn lemma_neighbours(f: spec_fn(int) -> ListItem, head: Option<u32>, lo: in
     requires list_ok(f, head, lo, hi), l_vac(f, lo, hi, idx),
     ensures l_vac(f, lo, hi, f(idx).next as int), l_vac(f, lo, hi, f(idx).prev as int), head.is_some(), head.unwrap() <= idx,
         f(idx).next <= idx ==> head == Some(f(idx).next),
+{
+    reveal(list_ok);
+}
+
+proof fn lemma_empty_window(f: spec_fn(int) -> ListItem, lo: int)
+    ensures list_ok(f, None, lo, lo),
+{
+    reveal(list_ok);
+}
+
+proof fn lemma_head(f: spec_fn(int) -> ListItem, head: Option<u32>, lo: int, hi: int)
+    requires list_ok(f, head, lo, hi),
+    ensures
+        head.is_some() ==> l_vac(f, lo, hi, head.unwrap() as int),
+        forall|j: int| #[trigger] l_vac(f, lo, hi, j) ==> head.is_some() && j >= head.unwrap(),
 {
     reveal(list_ok);
 }
@@ -130,6 +146,169 @@ proof fn lemma_remove(f0: spec_fn(int) -> ListItem, f3: spec_fn(int) -> ListItem
     }
 }
 
+proof fn lemma_congr(f: spec_fn(int) -> ListItem, g: spec_fn(int) -> ListItem, head: Option<u32>, lo: int, hi: int)
+    requires list_ok(f, head, lo, hi), forall|j: int| lo <= j < hi ==> #[trigger] f(j) == g(j),
+    ensures list_ok(g, head, lo, hi),
+{
+    reveal(list_ok);
+    assert forall|j: int| l_vac(g, lo, hi, j) == l_vac(f, lo, hi, j) by { if lo <= j < hi { assert(f(j) == g(j)); } }
+    assert forall|i: int| #[trigger] l_vac(g, lo, hi, i) implies
+        l_vac(g, lo, hi, g(i).next as int) && g(g(i).next as int).prev == i && l_vac(g, lo, hi, g(i).prev as int) && g(g(i).prev as int).next == i by {
+        assert(l_vac(f, lo, hi, i)); assert(f(i) == g(i));
+        let n = f(i).next as int; let p = f(i).prev as int;
+        assert(l_vac(f, lo, hi, n) && l_vac(f, lo, hi, p)); assert(f(n) == g(n)); assert(f(p) == g(p));
+    }
+    assert forall|i: int, j: int| #[trigger] l_vac(g, lo, hi, i) && #[trigger] l_vac(g, lo, hi, j) && i < j implies i < g(i).next <= j by {
+        assert(l_vac(f, lo, hi, i) && l_vac(f, lo, hi, j)); assert(f(i) == g(i));
+    }
+    assert forall|i: int| #[trigger] l_vac(g, lo, hi, i) && g(i).next <= i implies head == Some(g(i).next) by {
+        assert(l_vac(f, lo, hi, i)); assert(f(i) == g(i));
+    }
+}
+
+// dropping a vacancy-free prefix of the window
+proof fn lemma_shrink(f: spec_fn(int) -> ListItem, head: Option<u32>, lo: int, lo2: int, hi: int)
+    requires list_ok(f, head, lo, hi), lo <= lo2 <= hi, forall|j: int| lo <= j < lo2 ==> !l_vac(f, lo, hi, j),
+    ensures list_ok(f, head, lo2, hi),
+{
+    reveal(list_ok);
+    assert forall|j: int| l_vac(f, lo2, hi, j) == l_vac(f, lo, hi, j) by { }
+    assert forall|i: int| #[trigger] l_vac(f, lo2, hi, i) implies
+        l_vac(f, lo2, hi, f(i).next as int) && f(f(i).next as int).prev == i && l_vac(f, lo2, hi, f(i).prev as int) && f(f(i).prev as int).next == i by {
+        assert(l_vac(f, lo, hi, i));
+    }
+    assert forall|i: int, j: int| #[trigger] l_vac(f, lo2, hi, i) && #[trigger] l_vac(f, lo2, hi, j) && i < j implies i < f(i).next <= j by {
+        assert(l_vac(f, lo, hi, i) && l_vac(f, lo, hi, j));
+    }
+    assert forall|i: int| #[trigger] l_vac(f, lo2, hi, i) && f(i).next <= i implies head == Some(f(i).next) by { assert(l_vac(f, lo, hi, i)); }
+    match head { None => { assert forall|j: int| !l_vac(f, lo2, hi, j) by { assert(!l_vac(f, lo, hi, j)); } }
+                 Some(hd) => { assert(l_vac(f, lo, hi, hd as int)); assert forall|j: int| #[trigger] l_vac(f, lo2, hi, j) implies j >= hd by { assert(l_vac(f, lo, hi, j)); } } }
+}
+
+spec fn fresh_cell(j: int, lo: int, hi: int, first_prev: int, last_next: int) -> ListItem {
+    ListItem { next: (if j == hi - 1 { last_next } else { j + 1 }) as u32, prev: (if j == lo { first_prev } else { j - 1 }) as u32,
+               used_base: false, used_index: false }
+}
+
+// a fresh block [mid, hi) spliced behind the tail of a non-empty list over [lo, mid)
+proof fn lemma_append_setup(f0: spec_fn(int) -> ListItem, f4: spec_fn(int) -> ListItem, h: int, lo: int, mid: int, hi: int)
+    requires list_ok(f0, Some(h as u32), lo, mid), 0 <= lo <= mid < hi <= u32::MAX, 0 <= h <= u32::MAX,
+        forall|j: int| lo <= j < mid ==> #[trigger] f4(j) == (ListItem {
+            next: if j == f0(h).prev { mid as u32 } else { f0(j).next }, prev: if j == h { (hi - 1) as u32 } else { f0(j).prev },
+            used_base: f0(j).used_base, used_index: f0(j).used_index }),
+        forall|j: int| mid <= j < hi ==> #[trigger] f4(j) == fresh_cell(j, mid, hi, f0(h).prev as int, h),
+    ensures
+        l_vac(f0, lo, mid, h), l_vac(f0, lo, mid, f0(h).prev as int), f0(f0(h).prev as int).next == h,
+        forall|j: int| #[trigger] l_vac(f0, lo, mid, j) ==> h <= j <= f0(h).prev,
+        forall|j: int| #[trigger] l_vac(f4, lo, hi, j) == (l_vac(f0, lo, mid, j) || mid <= j < hi),
+{
+    reveal(list_ok);
+    let t = f0(h).prev as int;
+    assert(l_vac(f0, lo, mid, h));
+    assert(l_vac(f0, lo, mid, t) && f0(t).next == h);
+    assert forall|j: int| #[trigger] l_vac(f0, lo, mid, j) implies h <= j <= t by { if j > t { assert(t < f0(t).next <= j); } }
+    assert forall|j: int| #[trigger] l_vac(f4, lo, hi, j) == (l_vac(f0, lo, mid, j) || mid <= j < hi) by {
+        if lo <= j < mid { assert(f4(j).used_index == f0(j).used_index); } else if mid <= j < hi { assert(f4(j) == fresh_cell(j, mid, hi, t, h)); }
+    }
+}
+
+proof fn lemma_append_links(f0: spec_fn(int) -> ListItem, f4: spec_fn(int) -> ListItem, h: int, lo: int, mid: int, hi: int)
+    requires list_ok(f0, Some(h as u32), lo, mid), 0 <= lo <= mid < hi <= u32::MAX, 0 <= h <= u32::MAX,
+        forall|j: int| lo <= j < mid ==> #[trigger] f4(j) == (ListItem {
+            next: if j == f0(h).prev { mid as u32 } else { f0(j).next }, prev: if j == h { (hi - 1) as u32 } else { f0(j).prev },
+            used_base: f0(j).used_base, used_index: f0(j).used_index }),
+        forall|j: int| mid <= j < hi ==> #[trigger] f4(j) == fresh_cell(j, mid, hi, f0(h).prev as int, h),
+    ensures forall|i: int| #[trigger] l_vac(f4, lo, hi, i) ==>
+        l_vac(f4, lo, hi, f4(i).next as int) && f4(f4(i).next as int).prev == i && l_vac(f4, lo, hi, f4(i).prev as int) && f4(f4(i).prev as int).next == i,
+{
+    lemma_append_setup(f0, f4, h, lo, mid, hi);
+    let t = f0(h).prev as int;
+    assert(f4(mid) == fresh_cell(mid, mid, hi, t, h)); assert(f4(hi - 1) == fresh_cell(hi - 1, mid, hi, t, h));
+    assert(f4(t).next == mid && f4(h).prev == hi - 1);
+    assert forall|i: int| #[trigger] l_vac(f4, lo, hi, i) implies
+        l_vac(f4, lo, hi, f4(i).next as int) && f4(f4(i).next as int).prev == i && l_vac(f4, lo, hi, f4(i).prev as int) && f4(f4(i).prev as int).next == i by {
+        if i < mid {
+            assert(l_vac(f0, lo, mid, i));
+            let n0 = f0(i).next as int; let p0 = f0(i).prev as int;
+            assert(l_vac(f0, lo, mid, n0) && l_vac(f0, lo, mid, p0) && f0(n0).prev == i && f0(p0).next == i) by { reveal(list_ok); }
+            assert(lo <= n0 < mid && lo <= p0 < mid);
+            if i != t { assert(n0 != h) by { if n0 == h { assert(f0(h).prev == i); } } assert(f4(i).next == n0); assert(f4(n0).prev == f0(n0).prev); }
+            if i != h { assert(p0 != t) by { if p0 == t { assert(f0(t).next == i); } } assert(f4(i).prev == p0); assert(f4(p0).next == f0(p0).next); }
+        } else {
+            assert(f4(i) == fresh_cell(i, mid, hi, t, h));
+            if i + 1 < hi { assert(f4(i + 1) == fresh_cell(i + 1, mid, hi, t, h)); }
+            if i > mid { assert(f4(i - 1) == fresh_cell(i - 1, mid, hi, t, h)); }
+        }
+    }
+}
+
+proof fn lemma_append_order(f0: spec_fn(int) -> ListItem, f4: spec_fn(int) -> ListItem, h: int, lo: int, mid: int, hi: int)
+    requires list_ok(f0, Some(h as u32), lo, mid), 0 <= lo <= mid < hi <= u32::MAX, 0 <= h <= u32::MAX,
+        forall|j: int| lo <= j < mid ==> #[trigger] f4(j) == (ListItem {
+            next: if j == f0(h).prev { mid as u32 } else { f0(j).next }, prev: if j == h { (hi - 1) as u32 } else { f0(j).prev },
+            used_base: f0(j).used_base, used_index: f0(j).used_index }),
+        forall|j: int| mid <= j < hi ==> #[trigger] f4(j) == fresh_cell(j, mid, hi, f0(h).prev as int, h),
+    ensures
+        forall|i: int, j: int| #[trigger] l_vac(f4, lo, hi, i) && #[trigger] l_vac(f4, lo, hi, j) && i < j ==> i < f4(i).next <= j,
+        forall|i: int| #[trigger] l_vac(f4, lo, hi, i) && f4(i).next <= i ==> Some(h as u32) == Some(f4(i).next),
+        l_vac(f4, lo, hi, h), forall|j: int| #[trigger] l_vac(f4, lo, hi, j) ==> j >= h,
+{
+    lemma_append_setup(f0, f4, h, lo, mid, hi);
+    let t = f0(h).prev as int;
+    assert forall|i: int, j: int| #[trigger] l_vac(f4, lo, hi, i) && #[trigger] l_vac(f4, lo, hi, j) && i < j implies i < f4(i).next <= j by {
+        if i < mid {
+            assert(l_vac(f0, lo, mid, i));
+            if i == t { if j < mid { assert(l_vac(f0, lo, mid, j)); } }
+            else { assert(i < t); assert(i < f0(i).next <= t) by { reveal(list_ok); } if j < mid { assert(l_vac(f0, lo, mid, j)); assert(i < f0(i).next <= j) by { reveal(list_ok); } } }
+        } else { assert(f4(i) == fresh_cell(i, mid, hi, t, h)); }
+    }
+    assert forall|i: int| #[trigger] l_vac(f4, lo, hi, i) && f4(i).next <= i implies Some(h as u32) == Some(f4(i).next) by {
+        if i < mid { assert(l_vac(f0, lo, mid, i)); if i != t { assert(Some(h as u32) == Some(f0(i).next)) by { reveal(list_ok); } } }
+        else { assert(f4(i) == fresh_cell(i, mid, hi, t, h)); }
+    }
+    assert forall|j: int| #[trigger] l_vac(f4, lo, hi, j) implies j >= h by { if j < mid { assert(l_vac(f0, lo, mid, j)); } }
+}
+
+proof fn lemma_append(f0: spec_fn(int) -> ListItem, f4: spec_fn(int) -> ListItem, h: int, lo: int, mid: int, hi: int)
+    requires list_ok(f0, Some(h as u32), lo, mid), 0 <= lo <= mid < hi <= u32::MAX, 0 <= h <= u32::MAX,
+        forall|j: int| lo <= j < mid ==> #[trigger] f4(j) == (ListItem {
+            next: if j == f0(h).prev { mid as u32 } else { f0(j).next }, prev: if j == h { (hi - 1) as u32 } else { f0(j).prev },
+            used_base: f0(j).used_base, used_index: f0(j).used_index }),
+        forall|j: int| mid <= j < hi ==> #[trigger] f4(j) == fresh_cell(j, mid, hi, f0(h).prev as int, h),
+    ensures list_ok(f4, Some(h as u32), lo, hi),
+{
+    lemma_append_links(f0, f4, h, lo, mid, hi);
+    lemma_append_order(f0, f4, h, lo, mid, hi);
+    reveal(list_ok);
+}
+
+// a fresh block [mid, hi) when the old window [lo, mid) has no vacancy
+proof fn lemma_fresh(f4: spec_fn(int) -> ListItem, lo: int, mid: int, hi: int)
+    requires 0 <= lo <= mid < hi <= u32::MAX,
+        forall|j: int| lo <= j < mid ==> #[trigger] f4(j).used_index,
+        forall|j: int| mid <= j < hi ==> #[trigger] f4(j) == fresh_cell(j, mid, hi, hi - 1, mid),
+    ensures list_ok(f4, Some(mid as u32), lo, hi),
+{
+    reveal(list_ok);
+    assert forall|j: int| l_vac(f4, lo, hi, j) == (mid <= j < hi) by {
+        if lo <= j < mid { assert(f4(j).used_index); } else if mid <= j < hi { assert(f4(j) == fresh_cell(j, mid, hi, hi - 1, mid)); }
+    }
+    assert forall|i: int| #[trigger] l_vac(f4, lo, hi, i) implies
+        l_vac(f4, lo, hi, f4(i).next as int) && f4(f4(i).next as int).prev == i && l_vac(f4, lo, hi, f4(i).prev as int) && f4(f4(i).prev as int).next == i by {
+        assert(f4(i) == fresh_cell(i, mid, hi, hi - 1, mid));
+        assert(f4(mid) == fresh_cell(mid, mid, hi, hi - 1, mid)); assert(f4(hi - 1) == fresh_cell(hi - 1, mid, hi, hi - 1, mid));
+        if i + 1 < hi { assert(f4(i + 1) == fresh_cell(i + 1, mid, hi, hi - 1, mid)); }
+        if i > mid { assert(f4(i - 1) == fresh_cell(i - 1, mid, hi, hi - 1, mid)); }
+    }
+    assert forall|i: int, j: int| #[trigger] l_vac(f4, lo, hi, i) && #[trigger] l_vac(f4, lo, hi, j) && i < j implies i < f4(i).next <= j by {
+        assert(f4(i) == fresh_cell(i, mid, hi, hi - 1, mid));
+    }
+    assert forall|i: int| #[trigger] l_vac(f4, lo, hi, i) && f4(i).next <= i implies Some(mid as u32) == Some(f4(i).next) by {
+        assert(f4(i) == fresh_cell(i, mid, hi, hi - 1, mid));
+    }
+    assert(f4(mid) == fresh_cell(mid, mid, hi, hi - 1, mid));
+}
+
 spec fn h_wf(h: BuildHelper) -> bool { h_basic(h) && h_list(h, h_lo(h), h_hi(h)) }
 
 spec fn h_active(h: BuildHelper, i: int) -> bool { h_lo(h) <= i < h_hi(h) }
@@ -181,10 +360,108 @@ proof fn lemma_update_frame(h: BuildHelper, h2: BuildHelper, lo: int, hi: int, i
     ensures h_it(h2, i) == v,
         forall|j: int| lo <= j < hi && j != i ==> #[trigger] h_it(h2, j) == h_it(h, j),
 {
+    reveal(h_it);
     let cap = h_cap(h);
+    assert(h2.items@.len() == h.items@.len());
     assert(0 <= i % cap < cap) by { vstd::arithmetic::div_mod::lemma_mod_pos_bound(i, cap); }
     assert forall|j: int| lo <= j < hi && j != i implies #[trigger] h_it(h2, j) == h_it(h, j) by {
         vstd::arithmetic::div_mod::lemma_mod_pos_bound(j, cap);
         if j % cap == i % cap { lemma_ring_inj(cap, j, i); }
+    }
+}
+
+proof fn lemma_cells_same(a: BuildHelper, b: BuildHelper)
+    requires a.items@ =~= b.items@,
+    ensures h_cells(a) == h_cells(b), forall|j: int| #[trigger] h_it(b, j) == h_it(a, j),
+{
+    reveal(h_it);
+    assert(a.items@ == b.items@);
+    assert(h_cells(a) =~= h_cells(b));
+}
+
+// cell of the new block as written by the `for idx in old_len..new_len` loop of push_block
+spec fn loop_cell(j: int) -> ListItem {
+    ListItem { next: (j + 1) as u32, prev: (j as u32).wrapping_sub(1), used_base: false, used_index: false }
+}
+
+spec fn upd(a: BuildHelper, b: BuildHelper, i: int, v: ListItem) -> bool {
+    b.items@ =~= a.items@.update(i % h_cap(a), v)
+}
+
+// push_block, non-empty list: the four pointer writes splice the new block behind the tail
+proof fn lemma_splice_some(hl: BuildHelper, s1: BuildHelper, s2: BuildHelper, s3: BuildHelper, s4: BuildHelper,
+                           lo: int, mid: int, hi: int, head: int, tail: int)
+    requires
+        h_cap(hl) > 0, 0 <= lo <= mid < hi <= u32::MAX, hi - lo <= h_cap(hl), mid + 1 < hi || mid + 1 == hi,
+        list_ok(h_cells(hl), Some(head as u32), lo, mid), 0 <= head <= u32::MAX, tail == h_it(hl, head).prev,
+        forall|j: int| mid <= j < hi ==> h_it(hl, j) == loop_cell(j),
+        upd(hl, s1, mid, ListItem { prev: tail as u32, ..h_it(hl, mid) }),
+        upd(s1, s2, tail, ListItem { next: mid as u32, ..h_it(s1, tail) }),
+        upd(s2, s3, hi - 1, ListItem { next: head as u32, ..h_it(s2, hi - 1) }),
+        upd(s3, s4, head, ListItem { prev: (hi - 1) as u32, ..h_it(s3, head) }),
+    ensures
+        list_ok(h_cells(s4), Some(head as u32), lo, hi),
+        forall|j: int| lo <= j < hi ==> h_it(s4, j).used_index == h_it(hl, j).used_index && h_it(s4, j).used_base == h_it(hl, j).used_base,
+{
+    assert(l_vac(h_cells(hl), lo, mid, head)) by { reveal(list_ok); }
+    lemma_neighbours(h_cells(hl), Some(head as u32), lo, mid, head);
+    assert(lo <= tail < mid && lo <= head < mid);
+    lemma_update_frame(hl, s1, lo, hi, mid, ListItem { prev: tail as u32, ..h_it(hl, mid) });
+    lemma_update_frame(s1, s2, lo, hi, tail, ListItem { next: mid as u32, ..h_it(s1, tail) });
+    lemma_update_frame(s2, s3, lo, hi, hi - 1, ListItem { next: head as u32, ..h_it(s2, hi - 1) });
+    lemma_update_frame(s3, s4, lo, hi, head, ListItem { prev: (hi - 1) as u32, ..h_it(s3, head) });
+    let f0 = h_cells(hl); let f4 = h_cells(s4);
+    assert forall|j: int| lo <= j < mid implies #[trigger] f4(j) == (ListItem {
+        next: if j == f0(head).prev { mid as u32 } else { f0(j).next }, prev: if j == head { (hi - 1) as u32 } else { f0(j).prev },
+        used_base: f0(j).used_base, used_index: f0(j).used_index }) by {
+        assert(h_it(s4, j) == (if j == head { ListItem { prev: (hi - 1) as u32, ..h_it(s3, head) } } else { h_it(s3, j) }));
+        assert(h_it(s3, j) == h_it(s2, j));
+        assert(h_it(s2, j) == (if j == tail { ListItem { next: mid as u32, ..h_it(s1, tail) } } else { h_it(s1, j) }));
+        assert(h_it(s1, j) == h_it(hl, j));
+    }
+    assert forall|j: int| mid <= j < hi implies #[trigger] f4(j) == fresh_cell(j, mid, hi, f0(head).prev as int, head) by {
+        assert(h_it(hl, j) == loop_cell(j));
+        assert(h_it(s4, j) == h_it(s3, j));
+        assert(h_it(s3, j) == (if j == hi - 1 { ListItem { next: head as u32, ..h_it(s2, hi - 1) } } else { h_it(s2, j) }));
+        assert(h_it(s2, j) == h_it(s1, j));
+        assert(h_it(s1, j) == (if j == mid { ListItem { prev: tail as u32, ..h_it(hl, mid) } } else { h_it(hl, j) }));
+        if j > mid { assert((j as u32).wrapping_sub(1) == (j - 1) as u32); }
+    }
+    lemma_append(f0, f4, head, lo, mid, hi);
+    assert forall|j: int| lo <= j < hi implies h_it(s4, j).used_index == h_it(hl, j).used_index && h_it(s4, j).used_base == h_it(hl, j).used_base by {
+        if j < mid { assert(f4(j).used_index == f0(j).used_index); } else { assert(f4(j) == fresh_cell(j, mid, hi, f0(head).prev as int, head)); assert(h_it(hl, j) == loop_cell(j)); }
+    }
+}
+
+// push_block, empty list: the new block becomes the whole list
+proof fn lemma_splice_none(hl: BuildHelper, t1: BuildHelper, t2: BuildHelper, lo: int, mid: int, hi: int)
+    requires
+        h_cap(hl) > 0, 0 <= lo <= mid < hi <= u32::MAX, hi - lo <= h_cap(hl),
+        list_ok(h_cells(hl), None, lo, mid),
+        forall|j: int| mid <= j < hi ==> h_it(hl, j) == loop_cell(j),
+        upd(hl, t1, mid, ListItem { prev: (hi - 1) as u32, ..h_it(hl, mid) }),
+        upd(t1, t2, hi - 1, ListItem { next: mid as u32, ..h_it(t1, hi - 1) }),
+    ensures
+        list_ok(h_cells(t2), Some(mid as u32), lo, hi),
+        forall|j: int| lo <= j < hi ==> h_it(t2, j).used_index == h_it(hl, j).used_index && h_it(t2, j).used_base == h_it(hl, j).used_base,
+{
+    lemma_update_frame(hl, t1, lo, hi, mid, ListItem { prev: (hi - 1) as u32, ..h_it(hl, mid) });
+    lemma_update_frame(t1, t2, lo, hi, hi - 1, ListItem { next: mid as u32, ..h_it(t1, hi - 1) });
+    let f0 = h_cells(hl); let f4 = h_cells(t2);
+    assert forall|j: int| lo <= j < mid implies #[trigger] f4(j).used_index by {
+        reveal(list_ok);
+        assert(!l_vac(f0, lo, mid, j));
+        assert(h_it(t2, j) == h_it(t1, j)); assert(h_it(t1, j) == h_it(hl, j));
+    }
+    assert forall|j: int| mid <= j < hi implies #[trigger] f4(j) == fresh_cell(j, mid, hi, hi - 1, mid) by {
+        assert(h_it(hl, j) == loop_cell(j));
+        assert(h_it(t2, j) == (if j == hi - 1 { ListItem { next: mid as u32, ..h_it(t1, hi - 1) } } else { h_it(t1, j) }));
+        assert(h_it(t1, j) == (if j == mid { ListItem { prev: (hi - 1) as u32, ..h_it(hl, mid) } } else { h_it(hl, j) }));
+        if j > mid { assert((j as u32).wrapping_sub(1) == (j - 1) as u32); }
+    }
+    lemma_fresh(f4, lo, mid, hi);
+    assert forall|j: int| lo <= j < hi implies h_it(t2, j).used_index == h_it(hl, j).used_index && h_it(t2, j).used_base == h_it(hl, j).used_base by {
+        if j < mid { assert(h_it(t2, j) == h_it(t1, j)); assert(h_it(t1, j) == h_it(hl, j)); }
+        else { assert(f4(j) == fresh_cell(j, mid, hi, hi - 1, mid)); assert(h_it(hl, j) == loop_cell(j)); }
     }
 }
